@@ -182,6 +182,84 @@ let () =
                (let v = oget "sA" in
                 if v <> "?" && v <> "U" && v <> "P" && ref_part <> "P" && v <> ref_part then
                   set_pf "backend-mismatch sA differs from generic");
+               (* histories on ONE reused StripedScores<u8, U32> buffer: every step through the extracted history
+                  model (DiscHistory.hstep: resize of the caller's buffer + the kernel's writes into it), compared
+                  step by step (rows, max_index, checksum) and in full at the end *)
+               let hist_keys = ref [] in
+               (match (try Some (get "hist") with Not_found -> None) with
+                | None -> ()
+                | Some hs when not protein ->
+                    let sub_list l a b = List.filteri (fun i _ -> i >= a && i < b) l in
+                    let motif_variant v = match v with
+                      | 1 -> sub_list mat 0 ((m + 1) / 2)
+                      | 2 -> sub_list mat 1 m
+                      | 3 -> if m <= 12 then mat @ mat else mat
+                      | _ -> mat in
+                    let seq_variant v = match v with
+                      | 1 -> sub_list seq 0 (l / 3)
+                      | 2 -> sub_list (seq @ seq) 0 (min (2 * l) (l + 40))
+                      | 3 -> sub_list seq 0 (min l ((max m 1) - 1))
+                      | 4 -> sub_list seq 0 (max (l - 1) 0)
+                      | _ -> seq in
+                    let digest sc =
+                      let rows = z_sc_rows sc in
+                      let d = ref 0 and idx = ref 0 in
+                      List.iter (fun r -> List.iter (fun x ->
+                          d := (!d + int_of_z x * ((!idx mod 251) + 1)) mod 1000003; incr idx) r) rows;
+                      Printf.sprintf "%d:%d:%d" (List.length rows) (int_of_nat (z_sc_max sc)) !d in
+                    let dcache = Hashtbl.create 4 in
+                    let disc_of v =
+                      match Hashtbl.find_opt dcache v with
+                      | Some r -> r
+                      | None ->
+                          let r = if v = 0 then Some idd else
+                              (match f_to_discrete k5 (motif_variant v) with Ok dv -> Some (f_d_data dv) | _ -> None) in
+                          Hashtbl.add dcache v r; r in
+                    List.iteri (fun k hist ->
+                        let buf = ref (Some buf_empty) and obs = ref [] and cut = ref false in
+                        List.iter (fun stp ->
+                            if not !cut then begin
+                              let t = String.split_on_char '.' stp in
+                              let op = match t with
+                                | ["R"; r; mx] -> `Op (HResize (nat_of_int (int_of_string r), nat_of_int (int_of_string mx)))
+                                | ["Z"; v] -> `Op (HFill (z_of_int (int_of_string v)))
+                                | [be; mv; sv; rg] ->
+                                    let mv = int_of_string mv and sv = int_of_string sv in
+                                    (match disc_of mv with
+                                     | None -> `Stop "VP"
+                                     | Some dv ->
+                                         let id = match be with
+                                           | "G" -> gen_pipeline_u8 D4Generic | "S" -> gen_pipeline_u8 D4Sse2
+                                           | "A" -> gen_pipeline_u8 D4Avx2 | "g" -> gen_dispatch_u8_x86 D4Generic
+                                           | "s" -> gen_dispatch_u8_x86 D4Sse2 | _ -> gen_dispatch_u8_x86 D4Avx2 in
+                                         let mvl = List.length (motif_variant mv) in
+                                         let sx = striped k5 c32 (configure_wrap_of (nat_of_int mvl)) (List.map nat_of_int (seq_variant sv)) in
+                                         let c = { hc_id = id; hc_dm = dv; hc_pads = pads; hc_seq = sx } in
+                                         if rg = "F" then `Op (HScoreInto c)
+                                         else (match List.map int_of_string (split ':' rg) with
+                                             | [a; b] -> `Op (HRowsInto (c, nat_of_int a, nat_of_int b))
+                                             | _ -> `Stop "BAD"))
+                                | _ -> `Stop "BAD" in
+                              match op, !buf with
+                              | `Stop w, _ -> obs := w :: !obs; cut := true
+                              | `Op o, Some b ->
+                                  (match hstep gen_avx2_u8 gen_neon_u8 c32 o b with
+                                   | Ok b' -> buf := Some b'; obs := digest b' :: !obs
+                                   | _ -> obs := "P" :: !obs; cut := true)
+                              | _, None -> cut := true
+                            end) (String.split_on_char ';' hist);
+                        let hk = Printf.sprintf "h%d" k and hfk = Printf.sprintf "hf%d" k in
+                        let impl = oget hk in
+                        (* a pipeline that does not exist on this host ends the observed history with `U` *)
+                        let unavailable = String.length impl > 0 && impl.[String.length impl - 1] = 'U' in
+                        if not unavailable then begin
+                          cmp hk (String.concat ";" (List.rev !obs));
+                          cmp hfk (if !cut then "P" else match !buf with Some b -> show_scores (Ok b) | None -> "P");
+                          (* the final buffer of a complete history is the score of the main motif on the main
+                             sequence: one more source of byte scores for the property check below *)
+                          if not !cut then hist_keys := hfk :: !hist_keys
+                        end) (String.split_on_char '|' hs)
+                | Some _ -> ());
                (* the property on the implementation's numbers *)
                let u8s_of key =
                  if key = "ds" then (try Some (List.map int_of_string (split ',' (oget "ds"))) with _ -> None)
@@ -198,7 +276,7 @@ let () =
                      match u8s_of key with
                      | None -> false
                      | Some u -> if List.mem u !seen then false else (seen := u :: !seen; true))
-                   ["ds"; "gen"; "avx"; "dG"; "dS"; "dA"; "sse"; "g16"; "s16"] in
+                   (["ds"; "gen"; "avx"; "dG"; "dS"; "dA"; "sse"; "g16"; "s16"] @ List.rev !hist_keys) in
                let tag () = if well_conditioned mat ifac then "" else "ill-conditioned " in
                if in_theorem && List.length ireals = npos then begin
                  (* (a) scale recomputed by the model from the observed factor / offset *)
